@@ -10,7 +10,8 @@ W1 number path: every double written to the .nl goes through the formatter's
 T5 text and binary formatters accept the same conversions, and the binary
    widths equal what the binary reader consumes.
 """
-import os, re
+import os
+import re
 from ..cfg import Facts, kids, strip, walk, cv, render, short_loc, call_args, TRANSPARENT, switch_sections
 from ..facts import export_many, export, AnalysisBroken
 from .. import units
@@ -162,6 +163,7 @@ def run(rep, ctx):
     layout_rule(rep, F, FW)
     segment_rules(rep, F, FW)
     number_rules(rep, F, FW)
+    packing_rule(rep, F)
     return rep
 
 
@@ -668,3 +670,133 @@ def number_rules(rep, F, FW):
     if rs:
         t5.check("ReadUInt()" in render(rs[0].body) and "Read(length)" in render(rs[0].body),
                  "reader-string", short_loc(rs[0].loc), "binary strings: 4-byte length then the bytes")
+
+
+# ---- W3: binary packing of numeric constants -----------------------------------------------------
+def packing_rule(rep, F):
+    """BinaryFormatter::nput writes an integer-valued constant as a 2-byte ('s') or 4-byte ('l') record.
+    The record must be chosen only when the value fits: interval of the value under the branch facts."""
+    w3 = rep.rule("C03.W3", "RANGE", "binary constants: the 2-byte / 4-byte integer records are used only for values that fit them, everything else goes through %g", floor=3)
+    fs = [f for f in F.funcs if f.qn == "mp::BinaryFormatter::nput" and not f.is_dependent() and f.cfg is not None]
+    if not fs:
+        raise AnalysisBroken("C03.W3: BinaryFormatter::nput not found")
+    f = fs[0]
+    INF = float("inf")
+
+    def fcv(n):
+        n = strip(n)
+        for _ in range(6):
+            if "cv" in n:
+                try:
+                    return float(n["cv"])
+                except ValueError:
+                    return None
+            if n.get("v") is not None and n["k"] in ("FloatingLiteral", "IntegerLiteral"):
+                return float(n["v"])
+            if n["k"] == "UnaryOperator" and n.get("op") == "-" and kids(n):
+                v = fcv(kids(n)[0])
+                return -v if v is not None else None
+            if len(kids(n)) == 1:
+                n = strip(kids(n)[0])
+            else:
+                return None
+        return None
+    # locals assigned from casts of the value: sh = (short)L, L = (long)x, x = r
+    narrow = {}        # name -> width in bits when the local holds (T)value
+    for n in f.walk():
+        if n["k"] == "BinaryOperator" and n.get("op") == "=" and strip(kids(n)[0])["k"] == "DeclRefExpr":
+            lhs = strip(kids(n)[0])
+            ct = (lhs.get("ct") or "")
+            if ct in ("short", "signed short"):
+                narrow[lhs.get("name")] = 16
+            elif ct in ("int", "long") and "long" == ct:
+                narrow[lhs.get("name")] = 64
+            elif ct == "int":
+                narrow[lhs.get("name")] = 32
+
+    def interval(call):
+        lo, hi = -INF, INF
+        unknown = []
+
+        def add(c, pol):
+            nonlocal lo, hi
+            c = strip(c)
+            while c["k"] == "UnaryOperator" and c.get("op") == "!":
+                pol = not pol
+                c = strip(kids(c)[0])
+            if c["k"] == "BinaryOperator" and ((c.get("op") == "&&" and pol) or (c.get("op") == "||" and not pol)):
+                add(kids(c)[0], pol); add(kids(c)[1], pol)
+                return
+            if c["k"] == "BinaryOperator" and c.get("op") == "," and pol:
+                add(kids(c)[1], pol)
+                return
+            if c["k"] == "BinaryOperator" and c.get("op") in ("<=", "<", ">=", ">", "=="):
+                a, b = kids(c)
+                ta, tb = render(a).replace(" ", ""), render(b).replace(" ", "")
+                va, vb = fcv(a), fcv(b)
+                op = c["op"]
+                if not pol:
+                    op = {"<=": ">", "<": ">=", ">=": "<", ">": "<=", "==": "!="}[op]
+                def valname(t):
+                    t = re.sub(r"\((double|long|int|short)\)", "", t.replace("x=r", "x"))
+                    while t.startswith("(") and t.endswith(")"):
+                        t = t[1:-1]
+                    return t
+                if op == "==":
+                    # round-trip test  narrow == wide: the value fits the narrow type
+                    for t1, t2 in ((ta, tb), (tb, ta)):
+                        n1 = valname(t1)
+                        if n1 in narrow and narrow[n1] == 16 and valname(t2) in ("L", "x", "r"):
+                            lo, hi = max(lo, -32768.0), min(hi, 32767.0)
+                            return
+                        if "(double)x" in t1 or valname(t1) in ("x", "r"):
+                            if valname(t2) == "L":
+                                return        # value is integral: no range information
+                    unknown.append(render(c))
+                    return
+                if op == "!=":
+                    return
+                # comparison with a constant
+                if vb is not None and va is None:
+                    t, v = ta, vb
+                elif va is not None and vb is None:
+                    t, v = tb, va
+                    op = {"<=": ">=", "<": ">", ">=": "<=", ">": "<"}[op]
+                else:
+                    unknown.append(render(c))
+                    return
+                name = valname(t)
+                m = re.fullmatch(r"(?:std::)?(?:labs|abs|fabs|llabs)\((.*)\)", name)
+                if m and valname(m.group(1)) in ("L", "x", "r"):
+                    if op in ("<=", "<"):
+                        lo, hi = max(lo, -v), min(hi, v)
+                    return
+                if name in ("L", "x", "r"):
+                    if op in ("<=", "<"):
+                        hi = min(hi, v if op == "<=" else v - 1)
+                    else:
+                        lo = max(lo, v if op == ">=" else v + 1)
+                    return
+                unknown.append(render(c))
+                return
+            unknown.append(render(c))
+        for cid, pol in f.cfg.facts_at(call):
+            add(f.nodes[cid], pol)
+        return lo, hi, unknown
+    recs = {}
+    for c in f.walk():
+        if c["k"] in ("CallExpr", "CXXMemberCallExpr") and (c.get("callee") or "").split("::")[-1] == "apr":
+            lits = [x.get("v") for x in walk(c) if x["k"] == "StringLiteral"]
+            if lits:
+                recs.setdefault(lits[0][:1], []).append(c)
+    if set(recs) != {"s", "l", "n"}:
+        raise AnalysisBroken("C03.W3: records written by nput: %s" % sorted(recs))
+    for letter, (wlo, whi, what) in (("s", (-32768.0, 32767.0, "2-byte")), ("l", (-2147483648.0, 2147483647.0, "4-byte"))):
+        for c in recs[letter]:
+            lo, hi, unknown = interval(c)
+            if unknown and not (lo >= wlo and hi <= whi):
+                raise AnalysisBroken("C03.W3: unrecognised guard(s) %s on the '%s' record" % (unknown, letter))
+            w3.check(lo >= wlo and hi <= whi, "record|" + letter, short_loc(c.get("l")), "the %s integer record is written only for values in [%d, %d]" % (what, wlo, whi),
+                     "the %s integer record '%s' is written for values in [%s, %s]: a constant outside [%d, %d] wraps and is read back as a different number" % (what, letter, lo, hi, wlo, whi))
+    g = [x for x in recs["n"] if any(s.get("v", "").startswith("n%g") for s in walk(x) if s["k"] == "StringLiteral")]
+    w3.check(len(g) == 1, "record|n", short_loc(f.loc), "every other constant is written with %g")
